@@ -203,6 +203,49 @@ def structurally_incomplete(frame):
     return None
 
 
+def value_overrun(frame):
+    """Independent of the library: a text string, byte string or big integer inside the request header or inside
+    one of the batch items the batch count announces, whose length field promises more bytes than the frame still
+    holds, cannot have been 'fully decoded' - whatever value a decoder makes of it is not the value that was sent.
+    Structures are clamped to what is there (the library tolerates short structures whose missing tail is optional)
+    and fixed-size primitives are taken as 8 bytes whatever their length field says (the library reads them so)."""
+    def walk(off, end, depth, top=False):
+        seen_items = 0
+        while off + 8 <= end:
+            typ = frame[off + 3]
+            ln = struct.unpack('!I', frame[off + 4:off + 8])[0]
+            if top:
+                if frame[off:off + 3] == b'\x42\x00\x0f':
+                    seen_items += 1
+                    if seen_items > limit[0]:
+                        return None            # items beyond the batch count are never read
+                elif frame[off:off + 3] != b'\x42\x00\x77' or seen_items:
+                    return None                # whatever else follows at the top level is never read either
+            if typ == 1:
+                if depth < 60:
+                    if top and frame[off:off + 3] == b'\x42\x00\x77':
+                        # batch count: signed integer child 42000d of the header
+                        i = frame.find(b'\x42\x00\x0d\x02\x00\x00\x00\x04', off + 8, min(end, off + 8 + ln))
+                        limit[0] = struct.unpack('!i', frame[i + 8:i + 12])[0] if (i >= 0 and i + 12 <= len(frame)) else 0
+                    r = walk(off + 8, min(end, off + 8 + ln), depth + 1)
+                    if r:
+                        return r
+                off = off + 8 + ln
+            elif typ in (4, 7, 8):
+                if off + 8 + ln > end:
+                    return 'value-overrun'
+                off = off + 8 + ln + ((8 - ln % 8) % 8)
+            elif typ in (2, 3, 5, 6, 9, 10):
+                off = off + 16
+            else:
+                return None
+        return None
+    limit = [0]
+    if len(frame) < 16 or frame[:4] != b'\x42\x00\x78\x01':
+        return None
+    return walk(8, len(frame), 1, top=True)
+
+
 def decodable(frame):
     try:
         rig.decode_request(frame)
@@ -298,6 +341,12 @@ def run_case(ctx, case):
                         kind, fr = mutate(rng, valid) if rng.random() < 0.75 else ('valid', valid)
                     except Exception:
                         continue
+                    if rnd == 3 and not any(k_.startswith('oversized') for k_ in kinds):
+                        # a correctly framed request around and beyond 1 MiB (the session's nominal request limit)
+                        size = rng.choice((2 ** 20 - 8, 2 ** 20, 2 ** 20 + 8, 2 ** 20 + 4096, 2 ** 21))
+                        junk = rng.random() < 0.5
+                        body = (bytes(rng.getrandbits(8) for _ in range(64)) if junk else valid[8:])
+                        kind, fr = 'oversized-%s' % ('junk' if junk else 'padded-valid'), reframe(body + b'\x00' * (size - len(body)))
                     if len(fr) < 8 or struct.unpack('!I', fr[4:8])[0] != len(fr) - 8:
                         continue        # only consistently framed requests
                     frames.append(fr)
@@ -308,7 +357,7 @@ def run_case(ctx, case):
                 frames.append(probe)
                 kinds.append('probe')
                 dec = [decodable(f) for f in frames]
-                incomplete = [structurally_incomplete(f) for f in frames]
+                incomplete = [structurally_incomplete(f) or value_overrun(f) for f in frames]
                 for i, (dc, inc) in enumerate(zip(dec, incomplete)):
                     if inc:
                         ctx.count('structurally_incomplete_frames')
@@ -320,8 +369,9 @@ def run_case(ctx, case):
                 mutating = any(dec[:-1])       # a decodable "bad" frame may execute and change the store
                 results = {}
                 t0 = clock.now
-                for mode in ('random', 'one', 'exact'):
-                    if mode != 'random' and rng.random() < 0.5:
+                big = any(k_.startswith('oversized') for k_ in kinds)
+                for mode in (('large', 'exact') if big else ('random', 'one', 'exact')):
+                    if mode not in ('random', 'large') and rng.random() < 0.5:
                         continue
                     # each chunking runs on its own copy of the store so that they are comparable
                     path = d + '/m-%s.sqlite' % mode
@@ -373,7 +423,7 @@ def run_case(ctx, case):
                         ctx.violation('store-changed', 'store changed although every non-probe frame was undecodable',
                                       dict(detail, diff=rig.dump_diff(before, after)))
                     # probe after garbage vs the same probe on a clean connection over the resulting store
-                    if mode == 'random':
+                    if mode in ('random', 'large'):
                         clock.now = t0
                         path2 = d + '/clean.sqlite'
                         # the clean twin starts from the store as the stream left it before the probe: when no
